@@ -1,0 +1,6 @@
+//go:build !verif
+
+package generic
+
+// verifYield is a no-op unless built with the "verif" tag (verification instrumentation).
+func verifYield(string) {}
